@@ -41,8 +41,11 @@ func cliCheck(res *sched.Result, w *cliWorld) (finds []explore.Finding, outcome 
 		return finds, "deadlock"
 	case sched.StatusDivergent:
 		return nil, "divergent"
+	case sched.StatusStuckOpen:
+		return nil, "abandoned: a thread blocked outside the scheduler's control while another could move"
 	default:
-		add("C10,C15/"+res.Status, "%s %v %s; %s", res.PanicVal, res.Blocked, res.Notes, w.logString())
+		// (a panic, a livelock or a runaway execution is every client property's business: nothing it promises holds afterwards)
+		add("C10,C11,C12,C15/"+res.Status, "%s %v %s; %s", res.PanicVal, res.Blocked, res.Notes, w.logString())
 		return finds, res.Status
 	}
 	if w.fatal != "" {
@@ -207,7 +210,11 @@ func cliCheck(res *sched.Result, w *cliWorld) (finds []explore.Finding, outcome 
 						}
 					}
 					if dl := base.Add(time.Duration(n+1) * inst.RTO); !hr.Time.After(dl) {
-						add("C11/early-timeout", "%s: timeout at %v, not after the last deadline %v; %s", name, hr.Time.Sub(cliT0), dl.Sub(cliT0), w.logString())
+						key := "C11/early-timeout"
+						if sc.Sequential {
+							key = "C11,C10/early-timeout" // (C10: "with a timeout after the last retransmission"; decided where one thread moves the clock)
+						}
+						add(key, "%s: timeout at %v, not after the last deadline %v; %s", name, hr.Time.Sub(cliT0), dl.Sub(cliT0), w.logString())
 					}
 				}
 			case strings.Contains(cls, "write-error"):
@@ -433,8 +440,16 @@ func cliCheck(res *sched.Result, w *cliWorld) (finds []explore.Finding, outcome 
 				}
 			}
 		}
+		refused := func(d []byte) bool { // the (user-supplied) agent refused this very datagram: nobody gets it
+			for _, q := range w.log {
+				if q.Kind == "process-refused" && bytes.Equal(q.Data, d) {
+					return true
+				}
+			}
+			return false
+		}
 		for pos, r := range w.log {
-			if r.Kind != "deliver" || pos > firstClose || !decodes(w.delivered[r.N]) {
+			if r.Kind != "deliver" || pos > firstClose || !decodes(w.delivered[r.N]) || refused(w.delivered[r.N]) {
 				continue
 			}
 			inflight := -1
